@@ -273,7 +273,8 @@ def run_shard(sh):
                 attrs = {}
                 wdl = gen.prefix_list4(rng, 5) or ['192.0.2.0/24']
             if any(isinstance(e, dict) and e.get('kind') in ('rt2', 'ro2') and not as4peer for e in attrs.get(16, [])):
-                attrs.pop(16)
+                # a 4-octet-AS route target for a peer without that capability: the agent refuses (and then writes nothing)
+                res['counters']['as4_community_to_2octet_peer'] = res['counters'].get('as4_community_to_2octet_peer', 0) + 1
             if any(isinstance(e, dict) and e.get('kind') in ('traffic-action',) for e in attrs.get(16, [])):
                 attrs.pop(16)
             post = {'attr': to_json_attrs(attrs), 'nlri': nlri, 'withdraw': wdl}
@@ -350,6 +351,7 @@ def run_shard(sh):
             post = rng.choice([{'nlri': gen.prefix_list4(rng, 3) or ['192.0.2.0/24']}, {'attr': {}, 'nlri': ['192.0.2.0/24']},
                                {'attr': {'1': 0, '2': [], '3': 'not-an-address'}, 'nlri': ['192.0.2.0/24']}, {},
                                {'attr': {'1': 0, '2': [], '3': '10.0.0.1', '8': ['NO-SUCH-COMMUNITY']}, 'nlri': ['192.0.2.0/24']},
+                               {'attr': {'1': 0, '2': [], '3': '10.0.0.1', '16': ['no-such-kind:1:1']}, 'nlri': ['192.0.2.0/24']},
                                {'attr': {'1': 0, '2': [], '3': '10.0.0.1'}, 'nlri': ['300.1.2.0/24']}])
             rep['post'] = post
             code, jb = w.rest('POST', 'send/update', json_body=post)
